@@ -14,6 +14,7 @@ const verifOn = false
 const (
 	verifSiteLangSet   = 3
 	verifSiteFormatErr = 4
+	verifSiteSubReturn = 6
 )
 
 func verifStep(ctx *Context, opIndex int, code ByteCode, blockIndex, fstrBlockIndex, detailsLen, diceStateIndex int) bool {
